@@ -789,20 +789,36 @@ def _lexer_rules(prog):
         raise Unrecognised('bracket_lexer: the two buffers are not read at the top of the loop')
     # classify yields inside the loop by branch
     branches = {'bracket': [], 'space': [], 'other': []}
+    unknown = {'bracket': False, 'space': False, 'other': False}
+    import re as _re
+
+    def _member(facts, coll, pol):
+        # membership of the character in the collection, also through a set / frozenset / tuple built from it
+        for fa in facts:
+            if fa[0] == 'in' and fa[1] == chv and fa[3] is pol and _re.match(
+                    r'^(?:(?:frozenset|set|tuple|list)\()?%s\)?$' % _re.escape(coll), fa[2]):
+                return True
+        return False
     for n in cfg.eval_nodes():
         if W.id not in n.loops or n.kind != 'stmt':
             continue
         facts = [x[0] for x in facts_at(cfg, n.id) if W.id in cfg.nodes[x[1]].loops]
         br = None
-        if ('in', chv, 'trees.PHRASE_BRACKETS', True) in facts:
+        if _member(facts, 'trees.PHRASE_BRACKETS', True):
             br = 'bracket'
-        elif ('in', chv, 'string.whitespace', True) in facts:
+        elif _member(facts, 'string.whitespace', True):
             br = 'space'
-        elif ('in', chv, 'trees.PHRASE_BRACKETS', False) in facts and ('in', chv, 'string.whitespace', False) in facts:
+        elif _member(facts, 'trees.PHRASE_BRACKETS', False) and _member(facts, 'string.whitespace', False):
             br = 'other'
         if br is None:
             continue
         st = n.ast
+        known_shape = (isinstance(st, ast.Expr) and isinstance(st.value, ast.Yield)) or (
+            isinstance(st, ast.Expr) and isinstance(st.value, ast.Call) and unparse(st.value.func).endswith('.write')) or (
+            isinstance(st, ast.Assign) and isinstance(st.value, ast.Call) and unparse(st.value.func) == 'StringIO')
+        if not known_shape and not isinstance(st, ast.Pass) and not (
+                isinstance(st, ast.Expr) and isinstance(st.value, ast.Call) and unparse(st.value.func).endswith('.close')):
+            unknown[br] = True        # something else happens in this branch (a helper, another way to reset a buffer)
         if isinstance(st, ast.Expr) and isinstance(st.value, ast.Yield):
             y = st.value.value
             from ..values import is_empty_fact
@@ -815,6 +831,20 @@ def _lexer_rules(prog):
             branches[br].append(('WRITE', unparse(st.value.func.value), unparse(st.value.args[0])))
         elif isinstance(st, ast.Assign) and isinstance(st.value, ast.Call) and unparse(st.value.func) == 'StringIO':
             branches[br].append(('FRESH', unparse(st.targets[0])))
+    # the character classes are the format's: phrase brackets, string.whitespace, everything else.  A class decided by a
+    # str method (isspace, isalnum ...) covers other characters (Unicode blanks are whitespace for isspace only)
+    for n in cfg.nodes:
+        if n.kind == 'assume' and W.id in n.loops:
+            fa = norm_test(n.ast, True)
+            txt = unparse(n.ast)
+            m_ = _re.match(r'^%s\.(isspace|isalnum|isalpha|isprintable|isascii|isdigit)\(\)$' % _re.escape(chv), txt)
+            if m_:
+                obs.append(Ob('R-AUTOMATON/LEXER', f.fq, 'the lexer classifies a character by membership in the format\'s classes',
+                              False, '`%s` decides a character class: for str.%s the class differs from string.whitespace / the '
+                              'bracket inventory (e.g. NO-BREAK SPACE is whitespace for isspace() only), so tokens are cut at '
+                              'other places than the format says' % (txt, m_.group(1)), construct='lex-class:' + txt,
+                              line=n.lineno))
+                break
     # which buffer holds tokens: the one whose value is yielded with the literal class 'TOKEN'
     tb = wb = None
     for n in walk_own(f.node):
@@ -839,7 +869,7 @@ def _lexer_rules(prog):
     for br in ('bracket', 'space', 'other'):
         got = [x for x in branches[br]]
         ok = True if got == want[br] else None
-        if ok is None and all(x in want[br] for x in got) and len(got) < len(want[br]):
+        if ok is None and got and not unknown[br] and all(x in want[br] for x in got) and len(got) < len(want[br]):
             ok = False            # positive: a flush, a reset or the buffering step of the documented sequence is gone
         if ok is None and sorted(map(str, got)) == sorted(map(str, want[br])):
             ok = False            # same steps in another order (e.g. the character is buffered before the flush)
